@@ -81,6 +81,18 @@ impl W {
         self.n += 1;
         let n = self.n;
         let decl = |k: usize| if in_function { format!("  v1 = {};", k % 200) } else { format!("unsigned char w{};", k) };
+        if rng.chance(1, 7) {
+            // a kept line whose characters take more than one byte each (character constants are
+            // the only place where such text survives preprocessing): positions are byte offsets
+            let e = "'\u{20ac}' - '\u{20ac}' + '\u{e9}' - '\u{e9}' + '\u{20ac}' - '\u{20ac}' + '\u{20ac}' - '\u{20ac}'";
+            if in_function {
+                self.line(&format!("  v1 = {} + {};", e, n % 100));
+            } else {
+                self.line(&format!("const char mb{} = {} + {};", n, e, n % 100));
+            }
+            self.constructs.push("kept line with multi-byte characters".into());
+            return;
+        }
         match rng.below(if in_function { 9 } else { 13 }) {
             0 => {
                 self.line("");
